@@ -16,6 +16,7 @@ import (
 	"fmt"
 	"hash/fnv"
 	"math/rand/v2"
+	"os"
 	"runtime"
 	"sort"
 	"strconv"
@@ -450,7 +451,12 @@ func (s *Sched) drain() {
 // ---------- hooks ----------
 
 // SimHook is installed as boltz.SimHook.
+var traceHooks = os.Getenv("DSIM_TRACE") != ""
+
 func (s *Sched) SimHook(point string, db *boltz.DbImpl) {
+	if traceHooks {
+		fmt.Printf("TRACE hook %s main=%v goid=%d\n", point, db == s.mainDb, goid())
+	}
 	s.mu.Lock()
 	if db != s.mainDb {
 		s.mu.Unlock()
@@ -533,6 +539,9 @@ func (s *Sched) SimHook(point string, db *boltz.DbImpl) {
 
 // SeamHook is installed as simseam.Hook in the bbolt copy.
 func (s *Sched) SeamHook(site string, key []byte) error {
+	if traceHooks && (strings.HasPrefix(site, "rw.") || strings.HasPrefix(site, "tx.") || site == "batch.solo") {
+		fmt.Printf("TRACE seam %s main=%v goid=%d\n", site, string(key) == s.mainPath, goid())
+	}
 	switch site {
 	case "rw.acquired", "rw.released", "tx.committed", "tx.commit.begin":
 		s.mu.Lock()
@@ -581,6 +590,13 @@ func (s *Sched) WriterHeld() bool {
 	s.mu.Lock()
 	defer s.mu.Unlock()
 	return s.writerHeld
+}
+
+// ReloadHeld: the restore holds reloadLock.Lock right now.
+func (s *Sched) ReloadHeld() bool {
+	s.mu.Lock()
+	defer s.mu.Unlock()
+	return s.lockHeld
 }
 
 func (s *Sched) ReloadBusy() bool {
